@@ -302,6 +302,10 @@ def gen_int_column(rng, n, dt):
 
 
 def gen_int_dtypes(rng, ndim):
+    if rng.random() < 0.15:
+        # single-precision storage (a downcast table, a float32 file): whole-pixel values (exact in float32), generated like an
+        # int16 / int32 column; the statistic is a function of the VALUES, computed in double precision
+        return ['float32'] * ndim
     if ndim > 1 and rng.random() < 0.2:      # columns of different integer dtypes: .values takes their common dtype
         return [rng.choice(INT_DTYPES) for _ in range(ndim)]
     return [rng.choice(['int8', 'uint8', 'int16', 'int16', 'uint16', 'uint16', 'int32', 'int32', 'uint32', 'int64', 'uint64'])] * ndim
@@ -310,7 +314,11 @@ def gen_int_dtypes(rng, ndim):
 def gen_int_positions(rng, n, dtypes):
     levels, cols = [], []
     for dt in dtypes:
-        lv, col = gen_int_column(rng, n, dt)
+        if dt == 'float32':
+            lv, col = gen_int_column(rng, n, rng.choice(['int16', 'int16', 'int32']))
+            col = [min(2 ** 24 - 1, max(-(2 ** 24) + 1, v)) for v in col]      # exactly representable in float32
+        else:
+            lv, col = gen_int_column(rng, n, dt)
         levels.append(lv)
         cols.append(col)
     return levels, [[float(col[i]) for col in cols] for i in range(n)]
